@@ -6,18 +6,24 @@ from checks import kvgen as G, c01
 
 LEVEL = "proof"
 MODULE = "IwModel.Props.C06"
-THEOREMS = []
+THEOREMS = ["IwModel.C06." + t for t in (
+    "checkSlots_sound", "checkDb_sound_levels", "checkDb_sound_links", "checkDb_sound_order", "checkDb_sound_nodes",
+    "checkLedger_sound", "audit_sound", "writer_node_slots_ok")]
 MANIFEST = dict(
     level="proof",
     text=("An independent reader of the file format written in Lean (allocator header, bitmap, database chain, node records, data blocks) "
-          "with an executable well-formedness audit that states the property (links of every level vs the level-0 chain, back links, "
-          "counters, node order and cached prefix, slot geometry, allocation ledger = bitmap exactly); theorems about the reader's codecs; "
-          "the audit is run by the compiled Lean code on real file images taken during and after generated histories (database "
-          "destroy/re-create, metadata resizing, growth/shrink, both WAL modes) and the parsed contents are compared with a python reference"),
-    note=("trusted: Lean kernel/compiler, harness, generators, python reference; the invariant is *evaluated* on explored histories by the Lean "
-          "reader (decides the property on those files), it is not yet proved inductively over a byte-level model of the writer; images "
-          "in WAL mode are taken after close only"),
-    technique="Lean 4 executable format reader + audit evaluated on real file images; codec theorems; differential content check")
+          "with an executable well-formedness audit that states the property clause by clause; soundness theorems say what a clean "
+          "audit means: links of every level equal the level-0 chain filtered by level and counters equal the node counts "
+          "(checkDb_sound_levels), back and tail links (checkDb_sound_links), all keys well-formed and strictly descending along the "
+          "chain (checkDb_sound_order), nodes non-empty with the true cached prefix (checkDb_sound_nodes), slots inside the data area, "
+          "pairwise disjoint, referenced once (checkSlots_sound), no block owned twice and bitmap = owned set exactly "
+          "(checkLedger_sound). The audit is run by the compiled Lean code on real file images taken during and after generated "
+          "histories (database destroy/re-create, metadata resizing, growth/shrink, both WAL modes), the parsed contents are compared "
+          "with a python reference, and every parsed structure is re-encoded by the Lean writer and compared byte for byte with the file"),
+    note=("trusted: Lean kernel/compiler, harness, generators, python reference; the invariant is *decided* on explored histories by the "
+          "proved-sound Lean audit, it is not proved inductively over a byte-level model of all C operations; images in WAL mode are "
+          "taken after close only"),
+    technique="Lean 4 executable format reader + audit with soundness theorems, evaluated on real file images; byte-exact re-encoding; differential content check")
 
 IMG = re.compile(r"^image (\S+)")
 
@@ -106,12 +112,23 @@ def audit_images(ctx, drv, cases):
                 owner[m.group(1)] = (c, exp[m.group(1)])
     if not paths:
         return
-    rc, out, e = C.run_lines([drv, "fmt"], ["audit %s 4000" % p for p in paths], timeout=900)
-    if rc != 0 or len(out) != len(paths):
+    rc, out, e = C.run_lines([drv, "fmt"], [l for p in paths for l in ("audit %s 4000" % p, "reenc %s" % p)], timeout=900)
+    if rc != 0 or len(out) != 2 * len(paths):
         ctx.corr_broken.append("format reader failed: rc=%s %s" % (rc, e[-300:]))
         return
-    for p, line in zip(paths, out):
+    for p, line, renc in zip(paths, out[0::2], out[1::2]):
         c, exp = owner[p]
+        # byte-exact tie of the Lean encoders (Model/FormatEnc.lean) to the bytes the C writers produced
+        if renc.startswith("reenc ok"):
+            ctx.hist("reenc:ok")
+            for w in renc.split()[2:]:
+                k, v = w.split("=")
+                ctx.hist("reenc:" + k, int(v))
+        elif renc.startswith("reenc BAD"):
+            ctx.hist("reenc:BAD")
+            ctx.corr_broken.append("Lean encoders differ from the file bytes (%s): %s" % (os.path.basename(p), renc[:300]))
+        else:
+            ctx.hist("reenc:unreadable")
         ctx.cov["traces_validated_against_impl"] += 1
         ctx.hist("image:" + ("closed" if p.endswith("closed") else "live"))
         ctx.case(("img", p))
